@@ -29,8 +29,8 @@ def anchors():
 
 def cases(seed, tier):
     q = tier == "quick"
-    out = [{"fam": "series", "seed": [seed, 13, i], "count": 2} for i in range(50 if q else 700)]
-    out += [{"fam": "vanish", "seed": [seed, 13, 10 ** 5 + i], "count": 2} for i in range(12 if q else 150)]
+    out = [{"fam": "series", "seed": [seed, 13, i], "count": 2} for i in range(72 if q else 700)]
+    out += [{"fam": "vanish", "seed": [seed, 13, 10 ** 5 + i], "count": 2} for i in range(16 if q else 150)]
     if tier != "quick":
         out.append({"fam": "suite", "seed": [seed, 0, 0]})
     return out
